@@ -16,7 +16,7 @@ import numpy as np
 from harness import common as C
 
 HEADER = """From Coq Require Import List ZArith QArith Bool. Import ListNotations.
-From TLV Require Import Base.Shape Base.PyList Base.Tensor Base.Ops Model.Nonneg Model.NonnegSign Model.NonnegFlow Model.NonnegOptions Corr.C10.
+From TLV Require Import Base.Shape Base.PyList Base.Tensor Base.Ops Model.Nonneg Model.NonnegSign Model.NonnegFlow Model.NonnegOptions Model.NonnegP2Ls Model.NonnegCcpSpec Corr.C10.
 Local Open Scope nat_scope."""
 EPD = "tensorly.decomposition."
 ENTRY = {"nn_cp_mu": EPD + "non_negative_parafac", "nn_cp_hals": EPD + "non_negative_parafac_hals",
@@ -107,7 +107,9 @@ def declared_modes(cfg, n_modes):
     if a == "ccp":
         if nn is True:
             return list(range(n_modes))
-        return sorted(int(k) for k, v in (nn or {}).items() if v)
+        if isinstance(nn, (list, tuple)):           # a per-mode list: the truthy positions
+            return [m for m, v in enumerate(nn) if v and m < n_modes]
+        return sorted(set(int(k) % n_modes for k, v in (nn or {}).items() if v))      # negative keys count from the end; False values declare nothing
     if nn == "all":
         return list(range(n_modes))
     return sorted(set(int(m) for m in (nn or [])))
@@ -162,17 +164,31 @@ def run_cfg(cfg):
         return {"core": r[0], "factors": list(r[1])}
     if a == "ccp":
         nn = cfg["nn_modes"]
-        nn = True if nn is True else {int(k): bool(v) for k, v in nn.items()}
+        nn = True if nn is True else [bool(v) for v in nn] if isinstance(nn, (list, tuple)) else {int(k): bool(v) for k, v in nn.items()}
         r = constrained_parafac(X, cfg["rank"], n_iter_max=cfg["n"], n_iter_max_inner=o.get("inner", 10), init=init,
                                 random_state=cfg["rs"], non_negative=nn, fixed_modes=fixed, tol_outer=o["tol"],
                                 **{k: v for k, v in (o.get("other") or {}).items()})
         return {"weights": r[0], "factors": list(r[1])}
     if a == "parafac2":
+        ls = o["linesearch"]
+        if isinstance(ls, dict):        # {"user_nn_modes": ...}: a _BroThesisLineSearch INSTANCE created by the caller with its own nn_modes
+            ls = make_user_linesearch(X, ls["user_nn_modes"])
         r = parafac2(X, cfg["rank"], n_iter_max=cfg["n"], init=init, tol=o["tol"], random_state=cfg["rs"],
-                     normalize_factors=o["normalize"], nn_modes=cfg["nn_modes"], linesearch=o["linesearch"],
+                     normalize_factors=o["normalize"], nn_modes=cfg["nn_modes"], linesearch=ls,
                      n_iter_parafac=o.get("n_iter_parafac", 5))
         return {"weights": r[0], "factors": list(r[1])}
     raise KeyError(a)
+
+
+def make_user_linesearch(X, ls_nn):
+    from tensorly.decomposition._parafac2 import _BroThesisLineSearch
+    slices = X if isinstance(X, list) else list(X)
+    norm = float(np.sqrt(sum(np.linalg.norm(np.asarray(s_)) ** 2 for s_ in slices)))
+    return _BroThesisLineSearch(norm, "truncated_svd", nn_modes=list(ls_nn) if isinstance(ls_nn, (list, tuple)) else ls_nn)
+
+
+def mode_list(nn, n_modes=3):
+    return list(range(n_modes)) if nn == "all" else sorted(set(int(m) for m in (nn or [])))
 
 
 def sign_failures(cfg, out):
@@ -214,7 +230,19 @@ def arr(x):
     return np.asarray(x, dtype=float)
 
 
-CLASSIFIERS = {}
+def clf_user_linesearch_lacks_declared_modes(f):
+    """parafac2 with a caller-made _BroThesisLineSearch instance whose own nn_modes do not contain every declared mode, and every failing factor is one
+    of the declared modes the instance does not clip (the weights are never affected)"""
+    inp = f.get("inputs", {})
+    ls = (inp.get("opts") or {}).get("linesearch")
+    if inp.get("algo") != "parafac2" or not isinstance(ls, dict):
+        return False
+    lacking = set(mode_list(inp.get("nn_modes"))) - set(mode_list(ls.get("user_nn_modes")))
+    what = (f.get("extra") or {}).get("what") or []
+    return bool(lacking) and bool(what) and all(w in {f"factor{m}" for m in lacking} for w in what)
+
+
+CLASSIFIERS = {"parafac2_user_linesearch_lacks_declared_modes": clf_user_linesearch_lacks_declared_modes}
 
 
 # ----------------------------------------------------------------------------- configuration generator (part A)
@@ -439,6 +467,81 @@ def gen_convergence_exit_configs(tier, rng):
                            opts=dict(tol=0.5, normalize=nm, linesearch=False, n_iter_parafac=2))
 
 
+def gen_sparsity_bound_configs(tier, rng):
+    """round 7: non_negative_parafac_hals / non_negative_tucker_hals with sparsity_coefficients GIVEN (all > 0, scalar-like lists) on signed data, caps 1-3, tol 0: the HALS
+    row update clips many entries onto the bound 0, where the order of the l1 shift and the projection decides the sign (shift after the projection = -sparsity / UtU[k, k])"""
+    for k in range(6 if tier == "quick" else 40):
+        order = rng.choice([2, 3])
+        shape = tuple(rng.randint(2, 4) for _ in range(order))
+        X = gen_tensor(rng, shape, rng.choice(["signed", "signed", "sparse", "negative"]))
+        sp = [rng.choice([0.05, 0.5, 2.0]) for _ in range(order)]
+        rank = rng.choice([1, 2, 3])
+        w, fs = user_cp_init(rng, shape, rank, unit_weights=True)
+        yield dict(algo="nn_cp_hals", tensor=X, klass="sparsity-bound", rank=rank, init=rng.choice(["random", {"weights": w, "factors": fs}]), n=rng.choice([1, 2, 3]),
+                   rs=rng.randrange(10 ** 6), nn_modes=rng.choice(["all", "all", [0]]),
+                   opts=dict(tol=0, normalize=rng.random() < 0.3, fixed_modes=None, sparsity=sp, exact=False, cvg="abs_rec_error"))
+        ranks = [rng.randint(1, min(2, s_)) for s_ in shape]
+        yield dict(algo="nn_tucker_hals", tensor=X, klass="sparsity-bound", rank=list(ranks), init=rng.choice(["random", "svd"]), n=rng.choice([1, 2]), rs=rng.randrange(10 ** 6),
+                   nn_modes="all", opts=dict(tol=0, normalize=rng.random() < 0.3, fixed_modes=None, sparsity=sp, algorithm=rng.choice(["fista", "active_set"]),
+                                             core_sparsity=rng.choice([None, 0.1]), exact=False))
+
+
+def gen_ccp_spec_configs(tier, rng):
+    """round 7: constrained_parafac with the PER-MODE forms of non_negative: a list of booleans (possibly shorter than the order), a dictionary with negative mode
+    keys, a dictionary with False values, mixed with another constraint on an undeclared mode"""
+    for k in range(10 if tier == "quick" else 60):
+        order = rng.choice([2, 3, 3])
+        shape = tuple(rng.randint(2, 4) for _ in range(order))
+        X = gen_tensor(rng, shape, rng.choice(["signed", "signed", "sparse", "negative", "nonneg"]))
+        rank = rng.choice([1, 2])
+        form = rng.choice(["list", "list", "shortlist", "negkey", "falseval"])
+        if form == "list":
+            nn = [rng.random() < 0.6 for _ in range(order)]
+            if not any(nn):
+                nn[rng.randrange(order)] = True
+        elif form == "shortlist":
+            nn = [True] + [rng.random() < 0.5 for _ in range(order - 2)]
+        elif form == "negkey":
+            nn = {str(-rng.randint(1, order)): True}
+        else:
+            ms = rng.sample(range(order), 2)
+            nn = {str(ms[0]): True, str(ms[1]): False}
+        other = None
+        free = [m for m in range(order) if m not in declared_modes(dict(algo="ccp", nn_modes=nn), order)
+                and not (isinstance(nn, dict) and any(int(k_) % order == m for k_ in nn))]
+        if free and rng.random() < 0.3 and not isinstance(nn, list):
+            other = {"l2_square_reg": {free[0]: 0.5}}
+        init = rng.choice(["svd", "random", "user"])
+        if init == "user":
+            w, fs = user_cp_init(rng, shape, rank)
+            init = {"weights": w, "factors": fs}
+        yield dict(algo="ccp", tensor=X, klass="ccp-spec:" + form, rank=rank, init=init, n=rng.choice([0, 1, 2, 4]), rs=rng.randrange(10 ** 6), nn_modes=nn,
+                   opts=dict(tol=rng.choice([0, 1e-8]), inner=rng.choice([1, 3, 10]), fixed_modes=None, other=other))
+
+
+def gen_parafac2_user_ls_configs(tier, rng):
+    """round 7: parafac2(nn_modes=...) with a _BroThesisLineSearch INSTANCE made by the caller (odd caps 7 / 9 / 11: the last sweep is a line-search sweep).  When the
+    instance's own nn_modes contain every declared mode the property must hold; when they do not, an accepted jump returns an unclipped extrapolation of a declared
+    mode: known finding parafac2_user_linesearch_own_nn_modes (Coq: C10_parafac2_user_linesearch_refuted / C10_parafac2_user_linesearch)"""
+    for k in range(36 if tier == "quick" else 240):
+        I, J, K = rng.randint(2, 4), rng.randint(2, 5), rng.randint(2, 4)
+        R = rng.randint(1, min(J, K, 3))
+        g = np.array([rng.gauss(0, 1) for _ in range(I * J * K)]).reshape(I, J, K)
+        if k % 3 != 2:
+            g = g * np.array([rng.random() < 0.5 for _ in range(I * J * K)]).reshape(I, J, K)
+            if not g.any():
+                g[0, 0, 0] = 1.0
+        nn = rng.choice([[0, 2], [0, 2], [2], [0], "all", [0, 1, 2], [1, 2]])
+        covering = k % 2 == 0
+        if covering:
+            ls_nn = rng.choice([nn, "all", sorted(set(mode_list(nn)) | {rng.randrange(3)})])
+        else:
+            ls_nn = rng.choice([None, None, [], [1], mode_list(nn)[:-1]])
+        yield dict(algo="parafac2", tensor=g, klass="user-linesearch:" + ("covering" if covering else "lacking"), rank=R, init=rng.choice(["random", "random", "svd"]),
+                   n=(7, 9, 11)[k % 3], rs=rng.randrange(10 ** 6), nn_modes=nn,
+                   opts=dict(tol=1e-300, normalize=(k % 7 == 0), linesearch={"user_nn_modes": ls_nn}, n_iter_parafac=(5 if k % 9 == 0 else 1)))
+
+
 def quiet_run(cfg):
     with warnings.catch_warnings():
         warnings.simplefilter("ignore")
@@ -632,6 +735,10 @@ def run(chk):
         evaluate_cfg(chk, cfg, stats)
     for cfg in gen_convergence_exit_configs(chk.tier, rng):
         evaluate_cfg(chk, cfg, stats)
+    rng7 = random.Random(chk.seed * 7919 + 7)          # round 7 streams draw from their own generator (the older streams keep their cases for a given seed)
+    for gen in (gen_sparsity_bound_configs, gen_ccp_spec_configs, gen_parafac2_user_ls_configs):
+        for cfg in gen(chk.tier, rng7):
+            evaluate_cfg(chk, cfg, stats)
     for cfg in gen_solver_cfgs(chk.tier, rng):
         evaluate_solver(chk, cfg, stats)
     stage("decomposition_runs")
@@ -1330,6 +1437,7 @@ def corr_line(rng, tier, chk):
 
 def run_correspondence(chk, rng):
     del IMPL_REJECTS[:]
+    del OWN_LS_MISMATCH[:]
     groups = []
     groups += corr_mu_cp(rng, chk.tier)
     groups += corr_hals(rng, chk.tier)
@@ -1348,6 +1456,8 @@ def run_correspondence(chk, rng):
     groups += corr_ccp(rng, chk.tier)
     groups += corr_parafac2_iter(rng, chk.tier)
     groups += corr_parafac2_run(rng, chk.tier)
+    groups += corr_parafac2_run_g(random.Random(chk.seed * 7919 + 11), chk.tier)
+    groups += corr_ccp_spec(random.Random(chk.seed * 7919 + 13), chk.tier)
     groups += corr_line(rng, chk.tier, chk)
     groups += corr_sign(chk)
     groups += corr_flow(chk)
@@ -1392,6 +1502,9 @@ def run_correspondence(chk, rng):
     for b in broken:
         chk.broken.append({"what": "correspondence corr:C10 shard not evaluated", "detail": b})
     chk.cov["implementation_raised_on_valid_raw_option_calls"] = len(IMPL_REJECTS)
+    for m_ in OWN_LS_MISMATCH:
+        chk.disagreement("corr:C10 (parafac2(nn_modes=" + str(m_["nn_modes"]) + ", linesearch=True) built its own _BroThesisLineSearch with nn_modes=" + m_["line_search_nn_modes"] +
+                         ", which does not contain every declared mode: Model/Nonneg.v parafac2 / C10_parafac2_own_linesearch take the declared modes)", m_)
     for m_ in IMPL_REJECTS:
         chk.disagreement("corr:C10 (the implementation raises " + str(m_["raised"])[:120] + " on a call of " + m_["corr"] + " that the model of the entry point "
                          "(Model/NonnegOptions.v: option parsing + skeleton) accepts and decomposes)", m_)
@@ -1608,6 +1721,12 @@ _CC_CALLEES = {"initialize_constrained_parafac": ("decomposition/_constrained_cp
 FLOW_TARGETS = [
     # (label, file, function, parameter signs, tests taken as true, as false, callees to inline[, split[, records]])
     ("active_set_nnls (x >= 0)", "solvers/nnls.py", "active_set_nnls", {"x": "SgNN"}, (), (), {}),
+    # round 7: ANY (signed) start when at least one iteration runs (n_iter_max >= 1): the outer loop is peeled once, every iteration ends with the clip
+    ("active_set_nnls (ANY signed start, n_iter_max >= 1)", "solvers/nnls.py", "active_set_nnls", {}, (), (), {}, None, None,
+     {"peel": ("iteration in range(n_iter_max)",)}),
+    # round 7: the two inner solvers once more, flow-sensitively (the ORDER of the l1 shift / ridge and the projection matters: strong updates)
+    ("hals_nnls (warm start V >= 0, epsilon >= 0, any sparsity / ridge coefficient)", "solvers/nnls.py", "hals_nnls", {"V": "SgNN", "epsilon": "SgNN"}, (), ("V is None",), {}),
+    ("fista (non_negative=True, x >= 0, epsilon >= 0)", "solvers/nnls.py", "fista", {"x": "SgNN", "epsilon": "SgNN"}, ("non_negative",), (), {}),
     ("initialize_tucker (non_negative=True, any init incl. a signed user start)", "decomposition/_tucker.py", "initialize_tucker", {}, ("non_negative is True",), (), {}),
     ("initialize_cp (non_negative=True: built-in init or an entrywise non-negative user init)", "decomposition/_cp.py", "initialize_cp", {"init": "SgNN"},
      ("non_negative",), (), {}, None, {"kt": ("weights", "factors")}),
@@ -1643,10 +1762,11 @@ def corr_flow(chk):
     for label, rel, fname, signs, assume, assume_f, callees, *rest in FLOW_TARGETS:
         split = rest[0] if rest else None
         records = rest[1] if len(rest) > 1 else None
+        extra = rest[2] if len(rest) > 2 else {}
         try:
             with warnings.catch_warnings():
                 warnings.simplefilter("ignore")
-                r = S.translate_flow(src(rel), fname, signs, assume, assume_f, {k: (src(v[0]), v[1], v[2]) for k, v in callees.items()}, split=split, records=records)
+                r = S.translate_flow(src(rel), fname, signs, assume, assume_f, {k: (src(v[0]), v[1], v[2]) for k, v in callees.items()}, split=split, records=records, **extra)
         except (S.Untranslatable, SyntaxError, OSError, IndexError, KeyError) as e:
             chk.broken.append({"what": f"corr:C10-flow: {label} ({rel}) cannot be translated into the structured sign-analysis language (broken tie)",
                                "detail": f"{type(e).__name__}: {e}"[:300]})
@@ -1714,4 +1834,142 @@ def corr_parafac2_run(rng, tier):
                     {"corr": "parafac2 complete run (several outer iterations" + (", line search inside the loop)" if ls else ")"), "slices": slices, "weights": w,
                      "factors": Fs, "normalize": nm, "n_iter_parafac": nip, "n": n, "linesearch": ls,
                      "line_search_iterations": sorted(steps), "accepted": [i for i in sorted(steps) if steps[i][1]]}))
+    return out
+
+
+# ============================================================================= round 7: complete parafac2 runs for ANY nn_modes list and for a user-supplied line-search object
+OWN_LS_MISMATCH = []
+
+
+def corr_parafac2_run_g(rng, tier):
+    """parafac2(nn_modes = a PARTIAL list or 'all', init=(weights, factors, projections), tol=0, n_iter_max=n), linesearch in {False, True, a _BroThesisLineSearch
+    instance made by the caller with its own nn_modes}: the undeclared modes go through tl.solve (elimination inside Coq), the line search clips on the
+    instance's nn_modes (Model/NonnegP2Ls.v parafac2_ls).  Recording as in corr_parafac2_run.  Rank 1 in quick (1 x 1 Gram matrices: the solve is a division)."""
+    import sys as _sys
+    from tensorly.decomposition import parafac2
+    from tensorly.decomposition import _parafac2 as P2
+    out = []
+    nrun = 4 if tier == "quick" else 18
+    for k in range(nrun):
+        I, J, K = rng.randint(2, 3), rng.randint(2, 3), rng.randint(2, 3)
+        kind = ("user", "none", "own", "user")[k % 4]
+        R = 1 if (tier == "quick" or kind != "none" or rng.random() < 0.5) else 2
+        n = rng.choice([7, 9]) if kind != "none" else (rng.choice([2, 3]) if R == 1 else 2)
+        nn = rng.choice([[0, 2], [0, 2], [2], [0], [1, 2], [0, 1]])
+        slices = [np.array([[rng.gauss(0, 1) for _ in range(K)] for _ in range(J)]) for _ in range(I)]
+        if rng.random() < 0.3:
+            slices = [np.abs(s_) for s_ in slices]
+        Fs = [np.array([[rng.random() + 0.1 for _ in range(R)] for _ in range(d)]) for d in (I, R, K)]
+        w = np.ones(R) if rng.random() < 0.5 else np.array([rng.choice([0.5, 2.0, 1.5]) for _ in range(R)])
+        projs = [np.linalg.qr(np.array([[rng.gauss(0, 1) for _ in range(R)] for _ in range(J)]))[0] for _ in range(I)]
+        nm = rng.random() < 0.3
+        ls_nn = None
+        if kind == "own":
+            ls, ls_nn = True, nn
+        elif kind == "user":
+            ls_nn = rng.choice([None, [], [1], "all", nn, [nn[0]]])
+            ls = make_user_linesearch(slices, ls_nn)
+        else:
+            ls = False
+        Ts, steps, seen_nn = [], {}, []
+        orig_proj, orig_step = P2._project_tensor_slices, P2._BroThesisLineSearch.line_step
+        def rec_proj(tensor_slices, projections):
+            r_ = orig_proj(tensor_slices, projections)
+            if _sys._getframe(1).f_code.co_name == "parafac2":
+                Ts.append(np.array(r_, copy=True))
+            return r_
+        def rec_step(self, iteration, tensor_slices, factors_last, weights, factors, projections, rec_error):
+            jump = iteration ** (1.0 / self.acc_pow)
+            r_ = orig_step(self, iteration, tensor_slices, factors_last, weights, factors, projections, rec_error)
+            steps[iteration] = (jump, r_[0] is not factors)
+            seen_nn.append(self.nn_modes)
+            return r_
+        P2._project_tensor_slices, P2._BroThesisLineSearch.line_step = rec_proj, rec_step
+        try:
+            st, r = quiet_call(lambda: parafac2([s_.copy() for s_ in slices], R, n_iter_max=n, init=(w.copy(), [f.copy() for f in Fs], [p.copy() for p in projs]),
+                                                nn_modes=list(nn), linesearch=ls, normalize_factors=nm, n_iter_parafac=1, tol=0), timeout=120)
+        finally:
+            P2._project_tensor_slices, P2._BroThesisLineSearch.line_step = orig_proj, orig_step
+        # the line search parafac2 builds itself (linesearch=True) must clip on every declared mode: read off the object it actually used
+        if kind == "own" and st == "ok" and seen_nn and not all(set(nn) <= set(mode_list(x_)) for x_ in seen_nn):
+            OWN_LS_MISMATCH.append({"corr": "parafac2 own line search", "nn_modes": nn, "line_search_nn_modes": repr(seen_nn[0]), "slices": slices, "n": n})
+        if st != "ok" or not finite_all(r[0], *r[1]) or len(Ts) != n:
+            continue
+        # the undeclared modes are least-squares solves: keep the well-conditioned runs (the Gram matrices of the returned factors; rank 1: a positive number)
+        grams = [np.asarray(f).T @ np.asarray(f) for f in r[1]]
+        if any((not np.all(np.isfinite(g_))) or np.linalg.cond(g_) > 1e6 or abs(np.linalg.det(g_)) < 1e-8 for g_ in grams):
+            continue
+        lines = [steps[i][0] if i in steps else None for i in range(n)]
+        accepts = [bool(steps[i][1]) if i in steps else False for i in range(n)]
+        Ts_lit = "[" + "; ".join(C.qtensor(T_.shape, [float(x) for x in T_.reshape(-1)]) for T_ in Ts) + "]"
+        op = (f"(OP2RunG {Ts_lit} {qvec_lit(w)} {qmats_lit(Fs)} {C.nat_list(nn)} {C.nat_list(mode_list(ls_nn))} 1%nat {C.boolc(nm)} {C.q(1e-8)} {opt_list_lit(lines)} "
+              f"[{'; '.join(C.boolc(a) for a in accepts)}])")
+        scale = max(1.0, max(float(np.abs(f).max()) for f in r[1]), float(np.abs(r[0]).max()))
+        out.append((op, Fraction(scale) / 10 ** 7, r[0], list(r[1]),
+                    {"corr": "parafac2 complete run, partial nn_modes" + {"none": "", "own": ", own line search", "user": ", user-supplied line-search object"}[kind],
+                     "slices": slices, "weights": w, "factors": Fs, "normalize": nm, "nn_modes": nn, "linesearch": kind, "linesearch_nn_modes": ls_nn, "n": n,
+                     "line_search_iterations": sorted(steps), "accepted": [i for i in sorted(steps) if steps[i][1]]}))
+    return out
+
+
+def nn_spec_lit(spec):
+    if spec is None:
+        return "NSNone"
+    if isinstance(spec, bool):
+        return f"(NSBool {C.boolc(spec)})"
+    if isinstance(spec, list):
+        return "(NSList [" + "; ".join(C.boolc(bool(b)) for b in spec) + "])" if spec else "(NSList (@nil bool))"
+    items = "; ".join(f"({C.z(int(k))}, {C.boolc(bool(v))})" for k, v in spec.items())
+    return f"(NSDict [{items}])" if spec else "(NSDict (@nil (Z * bool)))"
+
+
+def corr_ccp_spec(rng, tier):
+    """round 7: complete constrained_parafac runs with the RAW non_negative argument (True / False / list of booleans, possibly short / dictionary with negative
+    keys and False values), raw fixed_modes (None / [] / lists containing the last mode) and non-unit user weights: the registration of validate_constraints, the
+    fixed-mode glue and the absorption of the weights are part of the executed model (Model/NonnegCcpSpec.v constrained_parafac_entry)"""
+    from tensorly.decomposition import constrained_parafac
+    out = []
+    nrun = 6 if tier == "quick" else 40
+    for k in range(nrun):
+        order = rng.choice([2, 3])
+        shape = tuple(rng.randint(2, 3) for _ in range(order))
+        rank = rng.choice([1, 2])
+        X = gen_float_tensor(rng, shape, rng.choice(["signed", "signed", "nonneg", "negative", "sparse"]))
+        Fs = [np.array([[rng.random() + 0.1 for _ in range(rank)] for _ in range(s)]) for s in shape]
+        w = np.ones(rank) if rng.random() < 0.4 else np.array([rng.choice([0.5, 2.0, 1.5]) for _ in range(rank)])
+        form = rng.choice(["true", "list", "list", "shortlist", "negkey", "falseval", "dict", "false"])
+        if form == "true":
+            spec = True
+        elif form == "false":
+            spec = False
+        elif form == "list":
+            spec = [rng.random() < 0.6 for _ in range(order)]
+        elif form == "shortlist":
+            spec = [True] + [rng.random() < 0.5 for _ in range(order - 2)]
+        elif form == "negkey":
+            spec = {-rng.randint(1, order): True}
+            if rng.random() < 0.5 and order == 3:
+                spec[0] = True
+                if -order in spec:
+                    del spec[0]
+        elif form == "falseval":
+            ms = rng.sample(range(order), 2)
+            spec = {ms[0]: True, ms[1]: False}
+        else:
+            spec = {m: True for m in sorted(rng.sample(range(order), rng.randint(1, order)))}
+        u = rng.random()
+        fixed = None if u < 0.4 else [] if u < 0.6 else [rng.randrange(order)] if u < 0.9 else sorted({rng.randrange(order), order - 1})
+        n, inner = rng.choice([1, 1, 2]), rng.choice([1, 2, 3])
+        arg = (dict(spec) if isinstance(spec, dict) else list(spec) if isinstance(spec, list) else spec)
+        st, r = quiet_call(lambda: constrained_parafac(X.copy(), rank, n_iter_max=n, n_iter_max_inner=inner, init=(w.copy(), [f.copy() for f in Fs]),
+                                                        tol_outer=0, tol_inner=0, fixed_modes=None if fixed is None else list(fixed), non_negative=arg), timeout=120)
+        if st == "reject" and "LinAlgError" not in str(r) and "ingular" not in str(r):      # a singular ADMM system (a factor clipped to zero on degenerate data) is a legitimate outcome: counted, not judged
+            IMPL_REJECTS.append({"corr": "constrained_parafac (raw non_negative)", "raised": r, "tensor": X, "weights": w, "factors": Fs, "non_negative": repr(spec), "fixed": fixed})
+        if st != "ok" or not finite_all(*r[1]):
+            continue
+        op = (f"(OCcpE {C.qtensor(shape, [float(x) for x in X.reshape(-1)])} {qvec_lit(w)} {qmats_lit(Fs)} {nn_spec_lit(spec)} {optfixed_lit(fixed)} {n}%nat {inner}%nat)")
+        scale = max(1.0, max(float(np.abs(f).max()) for f in r[1]))
+        out.append((op, Fraction(scale) / 10 ** 8, [], list(r[1]),
+                    {"corr": "constrained_parafac (raw non_negative argument)", "tensor": X, "weights": w, "factors": Fs, "non_negative": repr(spec), "form": form,
+                     "fixed": fixed, "n": n, "inner": inner}))
     return out
